@@ -804,7 +804,7 @@ class LockCheck:
             spec = dict(spec, seed=chk.seed, kind=self.lock)
             gname = spec.pop("graph", None)
             spec["snap"] = True
-            spec.setdefault("max_secs", 7 if tier == "quick" else 30)
+            spec.setdefault("max_secs", 5 if tier == "quick" else 30)
             runs, info = self.explore(chk, bindir, spec, tag)
             explored.append({"tag": tag, "progs": spec["progs"], "preemption_bound": spec.get("preempt"), "runs": len(runs),
                              "mode": spec.get("mode") or ("random" if "runs" in spec else "dfs"),
@@ -832,7 +832,7 @@ class LockCheck:
         # (the tour replays were already compared step by step by B1 and are left out here)
         sel = [r for r in pending if not r["source"].startswith("B1 ")]
         tot = sum(len(r["events"]) + 1 for r in sel)
-        cap = 400000 if tier == "quick" else 1200000
+        cap = 150000 if tier == "quick" else 1200000
         if tot > cap:
             # an evenly spaced sample keeps the trace validation inside the time budget (the count is reported)
             k = tot // cap + 1
